@@ -86,7 +86,8 @@ def sample_cfg(rng, clean=None):
             # cells (and hence the atom counts and primitive atoms) are those of the object
             cell.update(ext=False, masses="std", generic=False)
             src = [k for k in ks if cells[k]][0]
-            if not (args["smatArg"] and args["pmatArg"] and src in ("ucfile", "unitcell")):
+            # (a VASP structure file groups the atoms by species: other atom order than the object's)
+            if not (args["smatArg"] and args["pmatArg"] and src == "unitcell"):
                 args.update(fsFile=0, fcFile="none", nacArg=False, bornFile=False)
                 env.update(FS=0, FC="none", H5="none", BORN=False)
     return one_layout(dict(obj=obj, st=st, comp=comp, args=args, env=env, big=rng.random() < 0.25))
@@ -157,17 +158,18 @@ def compare_phonons(w, ph, ph2, obs):
     the scale class is the observed common ratio reloaded/original of the frequencies (same, default/own,
     own/default, other); the error class is that of the eigenvalues after removing this ratio."""
     o = w.cfg["obj"]
-    # the reference lives on the lattice as it stands in the text (its agreement with the original to the written
-    # precision is q.lattice): the Gonze-Lee sum has a sharp reciprocal-space cutoff and jumps by 1e-7 when a
+    # the reference lives on the lattice and primitive matrix as they stand in the text (their agreement with the
+    # original to the written precision is q.lattice / q.pmat): the Gonze-Lee sum has a sharp reciprocal-space cutoff and jumps by 1e-7 when a
     # lattice entry moves by 1e-16
-    ref = W.new_phonopy(o, lattice=np.array(ph2.unitcell.cell))
+    ref = W.new_phonopy(o, lattice=np.array(ph2.unitcell.cell), pmat=ph2.primitive_matrix)
     ref.masses = np.round(ref.primitive.masses, 6)
     if obs["fc"]["src"] == "yaml":
         ref.force_constants = ph.force_constants
     else:
         # the same pipeline on the original dataset, in the layout load() was asked for (full and compact
         # symmetrisation are not the same function: C07, not this property)
-        ref.force_constants = W.produced_fc(o, ph.dataset, w.cfg["args"]["isCompact"], symmetrize=True)
+        ref.force_constants = W.produced_fc(o, ph.dataset, w.cfg["args"]["isCompact"], symmetrize=True,
+                                            pmat=ph2.primitive_matrix)
     if obs["nac"]["src"] == "yaml":
         nac = dict(ph.nac_params)
         if "factor" not in nac:
